@@ -398,7 +398,12 @@ def check_C09(ctx):
         fams.append(dict(name="enc-" + nm, alphabet=alpha, clients="Seq3", feat='{"idle", "lateattach", "build"}', late='{"c3"}',
                          weight=w, maxedits=4, threshold=2, interval=2, guards=["KF-ARRAYSET-GC-LEAK"], **extra))
     fams.append(dict(name="enc-undo-arr", alphabet="OpsArrNoMove", clients="Seq2", editors=E2, feat='{"idle", "undo"}', maxundo=3, maxedits=3, weight=4, **ARR))
+    # reverse operations only undo/redo produces (text RemoveStyle, tree style restore, set-and-remove) through the same round trips
     viols = sim_families(ctx, fams, C09_TAGS, n)
+    # (single editor: what undo does under concurrency is C15's subject; only the encodings are judged here)
+    ufams = [dict(name="enc-undo-txt", alphabet="OpsTxt", clients="Seq2", editors='{"c1"}', feat='{"idle", "undo"}', maxundo=4, maxedits=3, weight=4, **TXT),
+             dict(name="enc-undo-tree", alphabet="OpsTree", clients="Seq2", editors='{"c1"}', feat='{"idle", "undo"}', maxundo=4, maxedits=3, weight=4, **TREE)]
+    viols += sim_families(ctx, ufams, {"WireTransparent", "SnapshotBytesTransparent", "LogReplayable"}, n)
     # merges, splits, split tickets, merged-from: the tree catalogue's changes and documents through the same round trips
     tv, _ = tree_catalogue(ctx, 4 if quick else 1, {"WireTransparent", "SnapshotBytesTransparent", "LogReplayable"})
     viols += tv
